@@ -304,6 +304,35 @@ def check_class(name, rng, seed, n_samples=None, stats=None):
                 gv = float(rng.choice([0, 1, 2.5])) * z
         record(x, gv, f.v)
         order.append("sample")
+    # re-query through the ORACLE at an already recorded Point object (stationary samples included): a class that does
+    # not reuse gradients must hand out a fresh leaf subgradient -- every admissible subgradient can then be the value
+    # of that leaf --, a differentiable one must return the recorded gradient (seed C03-9: the zero gradient of a
+    # declared stationary point returned for every later query at it)
+    for _ in range(rng.choice([0, 0, 1, 2])):
+        recs = list(func.list_of_points)
+        if not recs or name in ("LinearOperator",):
+            break
+        px, pg_old, pf_old = recs[rng.randrange(len(recs))]
+        xv = point_value(px, P)
+        if xv is None:
+            continue
+        n_before = len(func.list_of_points)
+        g2, f2 = func.oracle(px)
+        if f2 is not pf_old and not any(f2 is r[2] for r in recs if r[0] is px):
+            return dict(kind="oracle-requery-new-function-value", cls=name, params=params, world_seed=seed, samples=order)
+        if func.reuse_gradient:
+            if not any(g2 is r[1] for r in recs if r[0] is px):
+                return dict(kind="oracle-requery-differentiable-class-new-gradient", cls=name, params=params,
+                            world_seed=seed, samples=order)
+        else:
+            fresh = g2.get_is_leaf() and id(g2) not in P and len(func.list_of_points) == n_before + 1
+            if not fresh:
+                return dict(kind="oracle-requery-no-fresh-subgradient", cls=name, params=params, world_seed=seed,
+                            samples=order, at_stationary=(len(pg_old.decomposition_dict) == 0))
+            # a genuine subgradient at that point: the one already recorded there (the zero vector at a stationary one)
+            old = point_value(pg_old, P)
+            P[id(g2)] = np.zeros(len(xv)) if old is None else old
+        order.append("oracle-requery")
     if name == "LinearOperator":
         for k in range(rng.choice([0, 1, 2, 3])):
             u = np.array([rng.choice([-2, -1, 0.5, 1, 3]) for _ in range(dim)], float)
